@@ -62,6 +62,13 @@ deriving Repr, DecidableEq
 
 def rejectStatus : Side → Nat | .req => 413 | .resp => 500
 
+/-- setAndReturnBodyLimitInterruption (transaction.go:906): an interruption already in place is
+    kept; otherwise deny with 413/500 (through Transaction.Interrupt, engine On here) -/
+def limitIntr (intr : Option Nat) (side : Side) : Option Nat :=
+  match intr with
+  | some i => some i
+  | none => some (rejectStatus side)
+
 /-- ProcessRequestBody (1062) / ProcessResponseBody (1316), restricted to what they do
     with the buffer: guard order, body variable, one evaluation of the body phase. -/
 def processBody (s : St) : St :=
@@ -95,7 +102,7 @@ def writeSlice (s : St) (d : Bytes) : St × WObs :=
     if s.bb.length + d.length ≥ s.limit then
       let s := { s with dataErr := true }
       if s.reject then
-        let s := { s with intr := some (rejectStatus s.side) }
+        let s := { s with intr := limitIntr s.intr s.side }
         (s, ⟨s.intr, 0, false⟩)
       else
         let wb := s.limit - s.bb.length
@@ -124,7 +131,7 @@ def copyTail (s : St) (d : Bytes) (wb : Nat) (run : Bool) : St × WObs :=
     if s.bb.length == s.limit then
       let s := { s with dataErr := true }
       if s.reject then
-        let s := { s with intr := some (rejectStatus s.side) }
+        let s := { s with intr := limitIntr s.intr s.side }
         (s, ⟨s.intr, 0, false⟩)
       else
         let s := processBody s
@@ -141,7 +148,7 @@ def readFrom (s : St) (d : Bytes) (hasLen : Bool) : St × WObs :=
     if s.bb.length + d.length ≥ s.limit then
       let s := { s with dataErr := true }
       if s.reject then
-        let s := { s with intr := some (rejectStatus s.side) }
+        let s := { s with intr := limitIntr s.intr s.side }
         (s, ⟨s.intr, 0, false⟩)
       else copyTail s d (s.limit - s.bb.length) true
     else copyTail s d d.length false
